@@ -66,7 +66,7 @@ CONSTANTS = {"pi": math.pi}
 LISTED = set(FUNCTIONS) | set(CONSTANTS)
 DETERMINISTIC = {"max", "min", "exp", "floor", "cos", "sin", "sqrt", "ln", "sdiv"}  # evaluable here
 MAX_LEN = 1800  # the parser refuses strings of this length or more
-MAX_DEPTH = 40  # nesting deeper than this is a resource question (recursion limits), not a language question: 'unspecified'
+MAX_DEPTH = 150  # nesting deeper than this is a resource question (the parser hits recursion limits near 450): 'unspecified'
 
 ARITH_BINOPS = (ast.Add, ast.Sub, ast.Mult, ast.Div, ast.Pow)
 ARITH_UNARY = (ast.USub, ast.UAdd)
